@@ -70,12 +70,16 @@ Section BfsDfs.
   Proof.
     induction h as [|h IH]; intros q fuel Hq Hf.
     - apply bfs_leaves; [exact Hq|].
-      clear -Hf. revert fuel Hf. induction q as [|x q IHq]; intros fuel Hf; cbn in *; [lia|].
-      destruct fuel; [lia|]. specialize (IHq fuel). lia.
+      assert (E : list_sum (map (cost O) q) = length q).
+      { clear. induction q as [|x q IHq]; [reflexivity|]. cbn [map length].
+        change (list_sum (cost O x :: map (cost O) q)) with (cost O x + list_sum (map (cost O) q))%nat.
+        rewrite IHq. reflexivity. }
+      lia.
     - rewrite cost_sum_S in Hf.
-      replace fuel with (length q + (fuel - length q))%nat by lia.
-      rewrite <- (app_nil_r q) at 2.
-      rewrite (bfs_nodes_prefix h q [] _ Hq). cbn [app].
+      pose proof (bfs_nodes_prefix h q [] (fuel - length q) Hq) as E.
+      rewrite app_nil_r in E. cbn [app] in E.
+      replace (length q + (fuel - length q))%nat with fuel in E by lia.
+      rewrite E.
       rewrite IH.
       + rewrite flat_map_flat_map. reflexivity.
       + clear -Hq HS. induction q as [|x q IHq]; [constructor|].
